@@ -198,8 +198,13 @@ func c10Scenarios(tier string) []Scenario {
 				for i := range d {
 					d[i].At = int64(i)
 				}
-				add(&ClientScenario{V6: v6, T: T + 1, Tries: 1, BufCap: 1, CloseAt: -1, Bound: 1, Log: true,
-					Calls: []CallSpec{{ID: 0, Match: m, CancelAt: -1, After: -1}}, Dgs: d}, "logging")
+				for lk := 0; lk < 3; lk++ {
+					if lk == 2 && v6 {
+						continue
+					}
+					add(&ClientScenario{V6: v6, T: T + 1, Tries: 1, BufCap: 1, CloseAt: -1, Bound: 1, Log: true, LogKind: lk,
+						Calls: []CallSpec{{ID: 0, Match: m, CancelAt: -1, After: -1}}, Dgs: append([]DgSpec{}, d...)}, "logging")
+				}
 			}
 		}
 		// (4e) the production stack: the DHCPv4 client on top of the raw broadcast connection (frames in, frames out);
